@@ -268,7 +268,10 @@ pub fn make_plan(rng: &mut Rng, profile: Profile, force_journal: Option<bool>) -
                 Profile::Fail => *rng.pick(&[0u32, 100, 300]),
                 _ => *rng.pick(&[0u32, 0, 0, 50]),
             },
-            n_clients: rng.range(1, 3) as u32,
+            n_clients: match profile {
+                Profile::Client => rng.range(2, 4) as u32,
+                _ => rng.range(1, 3) as u32,
+            },
         },
         initial_workers,
         late_workers,
@@ -392,6 +395,12 @@ fn submit_spec(rng: &mut Rng, plan: &RunPlan, existing: &[u32], into_open: bool)
             }
             deps.sort();
             deps.dedup();
+            // the same dependency named twice (accepted by the server)
+            if !deps.is_empty() && rng.chance(1, 12) {
+                let d = *rng.pick(&deps);
+                deps.push(d);
+                deps.sort();
+            }
             tasks.push(GraphTaskSpec {
                 id,
                 rq: rng.below(n_rqs as u64) as u32,
@@ -419,18 +428,37 @@ fn submit_spec(rng: &mut Rng, plan: &RunPlan, existing: &[u32], into_open: bool)
         let (ids, entries) = match style {
             // explicit ids
             0 => {
-                let start = if into_open {
-                    if !existing.is_empty() && rng.chance(1, 12) {
-                        // clash with existing ids
-                        *rng.pick(existing)
-                    } else {
-                        existing.iter().max().map(|m| m + 1).unwrap_or(0) + rng.below(4) as u32
-                    }
+                // ids that fill a gap below the largest existing id (a later submit with
+                // automatic ids must still continue after the largest one)
+                let free_below: Vec<u32> = existing
+                    .iter()
+                    .max()
+                    .map(|m| (0..*m).filter(|i| !existing.contains(i)).collect())
+                    .unwrap_or_default();
+                if into_open && !free_below.is_empty() && rng.chance(1, 4) {
+                    let from = rng.usize_below(free_below.len());
+                    let ids: Vec<u32> = free_below.iter().skip(from).take(n as usize).copied().collect();
+                    (Some(ids), None)
                 } else {
-                    rng.below(5) as u32
-                };
-                let step = rng.range(1, 2) as u32;
-                (Some((0..n).map(|i| start + i * step).collect::<Vec<_>>()), None)
+                    let start = if into_open {
+                        if !existing.is_empty() && rng.chance(1, 12) {
+                            // clash with existing ids
+                            *rng.pick(existing)
+                        } else {
+                            existing.iter().max().map(|m| m + 1).unwrap_or(0)
+                                + if rng.chance(1, 5) {
+                                    // leave a large gap
+                                    rng.range(5, 12) as u32
+                                } else {
+                                    rng.below(4) as u32
+                                }
+                        }
+                    } else {
+                        rng.below(5) as u32 + if rng.chance(1, 6) { 8 } else { 0 }
+                    };
+                    let step = rng.range(1, 2) as u32;
+                    (Some((0..n).map(|i| start + i * step).collect::<Vec<_>>()), None)
+                }
             }
             // explicit ids + entries (client pairs them)
             1 => {
@@ -505,8 +533,9 @@ pub fn next_client_op(rng: &mut Rng, plan: &RunPlan, know: &Knowledge, ops_done:
                     _ => 1,
                 },
                 match plan.profile {
-                    Profile::Client => 3,
-                    _ => 8,
+                    // several clients waiting for their jobs at the same time, coming and going
+                    Profile::Client => 2,
+                    _ => 6,
                 },
             ),
         },
